@@ -71,11 +71,10 @@ func vrdBytes(v string) []byte {
 // the datum a stored value denotes (a uint leaf may be stored as a string by older writers)
 func vrdDatum(v string) string {
 	if strings.HasPrefix(v, "l:") {
-		return utils.TypedValueToString(func() *sdcpb.TypedValue {
-			tv := &sdcpb.TypedValue{}
-			_ = proto.Unmarshal(vrdBytes(v), tv)
-			return tv
-		}())
+		// the leaf-list of the test schema is ordered by the system: its entries have no order of their own
+		el := strings.Split(v[2:], ",")
+		sort.Strings(el)
+		return strings.Join(el, ",")
 	}
 	return strings.TrimPrefix(strings.TrimPrefix(v, "s:"), "u:")
 }
@@ -83,6 +82,14 @@ func vrdDatum(v string) string {
 func vrdTvString(tv *sdcpb.TypedValue) string {
 	if tv == nil {
 		return ""
+	}
+	if ll := tv.GetLeaflistVal(); ll != nil {
+		var el []string
+		for _, e := range ll.GetElement() {
+			el = append(el, utils.TypedValueToString(e))
+		}
+		sort.Strings(el)
+		return strings.Join(el, ",")
 	}
 	return utils.TypedValueToString(tv)
 }
@@ -108,19 +115,21 @@ func TestVerifReplayDeviations(t *testing.T) {
 			{{"i1", 10, "b"}, {"i2", 20, "a"}, {"i3", 30, "c"}},
 		}},
 		// a uint32 leaf whose intents are stored partly as strings: values are compared after normalisation
-		{[]string{"rangetestunsigned"}, "rangetestunsigned", []string{"u:20"}, [][]vrdIntent{
+		{[]string{"rangetestunsigned"}, "rangetestunsigned", []string{"u:20", "s:20"}, [][]vrdIntent{
 			{{"i1", 5, "u:20"}, {"i2", 10, "s:20"}},
 			{{"i1", 5, "u:20"}, {"i2", 10, "s:30"}},
 			{{"i1", 5, "s:20"}},
 			{{"i1", 5, "s:30"}, {"i2", 10, "u:30"}},
 		}},
 		// a leaf-list: the same entries are the same value, one entry more on either side is a deviation
-		{[]string{"leaflist", "entry"}, "leaflist/entry", []string{"l:a,b", "l:a,b,c"}, [][]vrdIntent{
+		{[]string{"leaflist", "entry"}, "leaflist/entry", []string{"l:a,b", "l:a,b,c", "l:b,a"}, [][]vrdIntent{
 			{{"i1", 10, "l:a,b"}},
 			{{"i1", 10, "l:a,b,c"}},
 			{{"i1", 10, "l:a,b"}, {"i2", 20, "l:a,b,c"}},
 			{{"i1", 10, "l:a,b,c"}, {"i2", 20, "l:a,b"}},
 			{{"i1", 10, "l:a,b"}, {"i2", 10, "l:a,b,c"}},
+			{{"i1", 10, "l:a,b"}, {"i2", 20, "l:b,a"}},
+			{{"i1", 10, "l:a,a,b"}, {"i2", 20, "l:a,b,b"}},
 		}},
 	}
 	for _, keysFail := range []bool{false, true} {
